@@ -126,4 +126,21 @@ theorem impure_fn_cache_unsound :
 example : (rewriteTree (fun _ => true) (fun _ b => b + 100) [((1, 7), ⟨1, 0o100644, 107⟩)] [⟨1, 0o100755, 7⟩]).2
     = [⟨1, 0o100755, 107⟩] := by decide
 
+/-! ### `--fixup`: the selection follows Git's effective `filter` attribute -/
+
+/-- a later line (of the same file or of a nested .gitattributes) that takes the path out of LFS again
+    prevails over any earlier `filter=lfs` line: the path is not converted -/
+theorem fixup_later_unset_prevails (pre post : List Rw.AttrLine) (hpost : ∀ l ∈ post, l.1 = false) :
+    Rw.fixupConverts (pre ++ (true, none) :: post) = false := by
+  simp [Rw.fixupConverts, Rw.effFilter_last_wins pre post none hpost]
+
+/-- … and a later `filter=lfs` line prevails over any earlier unset: the path is converted -/
+theorem fixup_later_lfs_prevails (pre post : List Rw.AttrLine) (hpost : ∀ l ∈ post, l.1 = false) :
+    Rw.fixupConverts (pre ++ (true, some Rw.sLfsFilter) :: post) = true := by
+  simp [Rw.fixupConverts, Rw.effFilter_last_wins pre post _ hpost]
+
+/-- non-vacuity (the shape of seeded change C12/3): `*.bin filter=lfs` then `raw/*.bin !filter` -/
+example : Rw.fixupConverts [(true, some Rw.sLfsFilter), (true, none)] = false ∧
+    Rw.fixupConverts [(true, none), (false, some Rw.sLfsFilter), (true, some Rw.sLfsFilter)] = true := by decide
+
 end C12
